@@ -65,6 +65,8 @@ pub fn gen(prop: &str, seed: u64, tier: Tier) -> ScenarioSpec {
         17..=18 => 2,
         _ => 3,
     };
+    // ... and so is the reader's debug dump option (one scenario in 24)
+    spec.debug_dump = crate::prng::mix(seed, 0x107) % 24 == 0;
     spec
 }
 
@@ -222,6 +224,8 @@ pub fn run(spec: &ScenarioSpec) -> RunReport {
     crate::worker::set_log_level(spec.log_level);
     ctx.shape("log", spec.log_level as u64);
     ctx.probe_if(spec.log_level > 0, "a logger is installed (Info or finer)");
+    crate::pipeline::set_debug_dump(spec.debug_dump);
+    ctx.shape("dbg", spec.debug_dump as u64);
     // a panic inside the harness itself (not inside a guarded peppi call) is a harness error
     let r = crate::report::guarded(|| dispatch(spec, &mut ctx));
     match r {
@@ -235,6 +239,8 @@ pub fn run(spec: &ScenarioSpec) -> RunReport {
             ctx.rep.violation = Some(Violation::new(&spec.property, "harness-error", "harness", msg));
         }
     }
+    let dumps = crate::pipeline::take_debug_dumps();
+    ctx.probe_if(dumps > 0, "a read ran with the Opts.debug dump option set");
     if let Some(v) = &ctx.rep.violation {
         ctx.rep.digest = crate::prng::mix_str(ctx.rep.digest, &v.sig());
     }
